@@ -200,7 +200,6 @@ class RequestCache(TaskManager):
                 return None
 
             self._logger.debug("add %s", cache)
-            self._identifiers[identifier] = cache
 
             timeout_delay = cache.timeout_delay
             if (self._timeout_override is not None
@@ -211,7 +210,10 @@ class RequestCache(TaskManager):
                 # Otherwise, only overwrite the timeout if the cache class is in the filter.
                 timeout_delay = self._timeout_override
 
+            # Only claim the identifier once the timeout task exists: if registering the task raises (the cache's own
+            # timeout is still running), no identifier without a timeout may be left behind.
             self.register_task(cache, self._on_timeout, cache, delay=timeout_delay)
+            self._identifiers[identifier] = cache
             waiter = self._waiters.pop((cache.prefix, cache.number), None)
             if waiter is not None and not waiter.done():
                 waiter.set_result(cache)
